@@ -8,6 +8,7 @@ NOTE = ("Trusted: go/ssa lowering, engine instruction semantics + listed stubs (
 
 CLAIMS = {
  "C01": ("§5 C01", "All protowire primitives encoded whole from go/ssa; every uint64/int64/uint32, every valid field number and 3-bit type, payloads<=4 bytes, prefix<=2 bytes: round trip, exact consumption, Size agreement, shortest varint, ZigZag/tag/bool bijection, group body recovery. Bounded model checking at full machine width, not a proof about arbitrary payload lengths."),
+ "C02": ("§5 C02", "ConsumeField/ConsumeTag/ConsumeFieldValue/ConsumeGroup/consumeFieldValueD compared with a reference recursive-descent scanner written from the wire grammar (error classes included) on every byte string up to 5 bytes (7 thorough), plus structured long inputs (8..11-byte varints, 5..10-byte tags, 12-byte fields per wire type, group with a >=9-byte varint) that reach the 10th-varint-byte arms; small symbolic recursion limits; ParseError mapping for every int."),
 }
 
 NA = {
